@@ -561,9 +561,13 @@ func (c *Client) allocateFromPool(ctx context.Context, pool *IPPool, subscriberI
 	hash := hashString(subscriberID)
 	offset := int(hash%uint64(numHosts)) + 1 // +1 to skip network address
 
-	// Calculate IP
+	// Calculate IP, starting from the network address even if the pool CIDR
+	// was written with host bits set (e.g. 10.0.0.1/24)
 	ip := make([]byte, 4)
 	copy(ip, baseIP)
+	for k := range ip {
+		ip[k] &= ipNet.Mask[k]
+	}
 
 	// Add offset to base IP
 	ip[3] += byte(offset & 0xFF)
